@@ -72,7 +72,9 @@ Inductive cval : Type :=
 | XStr (s : list N)
 | XBool (b : bool)
 | XArr (l : list cval)
-| XMap (l : list (key * cval)).    (* pairs sorted by key (object.Cmp) *)
+| XMap (l : list (key * cval))     (* pairs sorted by key (object.Cmp) *)
+| XCloLocal (n : name) (w : cval)  (* a function value func(){n}, created in a function frame that binds n to w itself *)
+| XCloOuter (n : name).            (* the same, when that frame only holds a reference to the top-level n *)
 
 (* numeric value in quarters: the order object.Cmp puts on integers and floats together (exact since b7336f5) *)
 Definition num_q (n : num) : Z := match n with NInt z => 4 * z | NFlt q => q | NNegZero => 0 end.
@@ -171,6 +173,8 @@ Fixpoint cval_eqb (a b : cval) : bool :=
        | (k, x) :: l', (k', y) :: r' => key_eqb k k' && cval_eqb x y && go l' r'
        | _, _ => false
        end) l r
+  | XCloLocal n x, XCloLocal m y => name_eqb n m && cval_eqb x y
+  | XCloOuter n, XCloOuter m => name_eqb n m
   | _, _ => false
   end.
 
@@ -343,7 +347,10 @@ Inductive expr :=
 | EIndex (y : name) (k : key)               (* y[k] *)
 | ERet (y : name)                           (* func(){y}() *)
 | EAppend (y : name) (v : cval)             (* y+[v] *)
-| ECallSet (y : name) (k : key) (v : cval). (* func(pp){pp[k]=v;pp}(y) *)
+| ECallSet (y : name) (k : key) (v : cval)  (* func(pp){pp[k]=v;pp}(y) *)
+| EPlus (x : expr) (v : cval)               (* x + v : the new value is computed from another one *)
+| EMkClo (n : name) (v : cval)              (* func(){n=v; func(){n}}() : a closure over a function-scope binding *)
+| ECallClo (g : name).                      (* g() *)
 
 Inductive attempt :=
 | AAssign (n : name) (ex : expr) (define : bool)  (* n = ex   /   n := ex *)
@@ -428,7 +435,23 @@ Definition on_value (r : env * res cval) (f : cval -> res cval) : env * res cval
   | (e1, x) => (e1, x)
   end.
 
-Definition eval_expr (e : env) (ex : expr) : env * res cval :=
+(* evalInfixExpression for + with an array on the left (other operand types are outside the model) *)
+Definition x_plus (v : cval) (x : cval) : res cval :=
+  match v with
+  | XArr a =>
+    match x with
+    | XArr b => Ok (XArr (a ++ b))
+    | XNum (NFlt _) | XNum NNegZero => Err    (* a float operand is tried as float arithmetic first: error *)
+    | _ => Ok (XArr (a ++ [x]))
+    end
+  | XNil | XBool _ => Err
+  | XMap _ => match x with XMap _ => Dom | _ => Err end
+  | _ => Dom
+  end.
+
+Definition root_frame (e : env) : option frame := nth_error e (length e - 1).
+
+Fixpoint eval_expr (c : ccfg) (e : env) (ex : expr) : env * res cval :=
   match ex with
   | ELit v => (e, Ok v)
   | EName y => read_name e y
@@ -438,6 +461,32 @@ Definition eval_expr (e : env) (ex : expr) : env * res cval :=
   | ERet y => let (e1, r) := read_name (empty_frame :: e) y in (tl e1, r)
   | EAppend y x => on_value (read_name e y) (fun v => x_append v x)
   | ECallSet y k x => on_value (read_name e y) (fun v => x_idx_set v k x)
+  | EPlus x v => on_value (eval_expr c e x) (fun w => x_plus w v)
+  | EMkClo n v =>
+    (* only at top level: the captured frame then has the top-level environment as its only outer frame *)
+    if negb (length e =? 1) then (e, Dom) else
+    match create_or_set c (empty_frame :: e) n v false with
+    | (f :: t, Ok _) =>
+      match nlookup (fstore f) n with
+      | Some (OVal w) => (t, Ok (XCloLocal n w))
+      | Some (ORef _ _) => (t, Ok (XCloOuter n))
+      | None => (t, Stuck)
+      end
+    | (e1, Ok _) => (tl e1, Stuck)
+    | (e1, x) => (tl e1, x)
+    end
+  | ECallClo g =>
+    (* the call runs in a new frame whose outer frame is the captured one, then the top level *)
+    match read_name e g with
+    | (e1, Ok (XCloLocal n w)) => (e1, Ok w)
+    | (e1, Ok (XCloOuter n)) =>
+      (e1, match root_frame e1 with
+           | Some f => match nlookup (fstore f) n with Some (OVal w) => Ok w | _ => Dom end
+           | None => Stuck
+           end)
+    | (e1, Ok _) => (e1, Err)          (* not a function *)
+    | (e1, x) => (e1, x)
+    end
   end.
 
 (* n[k] = v : evalIndexAssigment *)
@@ -455,7 +504,7 @@ Definition do_idx_set (c : ccfg) (e : env) (n : name) (k : key) (v : cval) : env
 Definition do_attempt (c : ccfg) (e : env) (a : attempt) : env * res cval :=
   match a with
   | AAssign n ex define =>
-    match eval_expr e ex with
+    match eval_expr c e ex with
     | (e1, Ok v) => create_or_set c e1 n v define
     | (e1, x) => (e1, x)
     end
